@@ -210,6 +210,15 @@ def make_machine(plugin: str, pool: Pool, ctx: Ctx, stats: collections.Counter, 
         @precondition(lambda self: self.last_key is not None)
         @rule(kind=st.sampled_from(["owned-pattern", "overwrite", "truncate"]), tag=st.integers(0, 999))
         def plant_stale(self, kind, tag):
+            self._plant(kind, tag)
+
+        @precondition(lambda self: self.last_key is not None)
+        @rule(kind=st.sampled_from(["overwrite", "truncate"]), tag=st.integers(0, 999), hs=st.integers(0, 2**32 - 1))
+        def damage_and_rerun(self, kind, tag, hs):
+            self._plant(kind, tag)
+            self.do_run(self.last_key, hs)
+
+        def _plant(self, kind, tag):
             self.history.append(["plant", kind, tag])
             self.dirty = True
             stats["plants"] += 1
@@ -257,6 +266,23 @@ def _work(args) -> dict:
             examples, steps = (2, 4) if slow else (3, 6)
         else:
             examples, steps = (6, 6) if slow else (12, 8)
+        if shard == 0:
+            # the committed replay tier of this property: one scripted history per plugin that visits every kind
+            # of predecessor state (same model re-run, genuine file damaged, owned-pattern stale file, other model)
+            mach = M()
+            try:
+                a, b = ("small_a", "small_b")
+                mach.do_run(a, 0)
+                for kind, tag in (("truncate", 3), ("overwrite", 7), ("owned-pattern", 11)):
+                    mach._plant(kind, tag)
+                    mach.do_run(a, 1)
+                mach.do_run(b, 2)
+                mach._plant("owned-pattern", 5)
+                mach.do_run("small_a+ext", 3)
+                mach.do_run(a, 987654321)
+                stats["scripted_histories"] += 1
+            finally:
+                mach.teardown()
         run_state_machine_as_test(
             hypothesis.seed(derive_seed(seed, "C16", plugin, shard))(M),
             settings=settings(max_examples=examples, stateful_step_count=steps, database=None, deadline=None,
